@@ -52,6 +52,9 @@ class _ParkingLogger:
     info = warning = error = exception = critical = lambda self, *a, **k: None
 
 
+UNREF = object()
+
+
 class Runner:
     def __init__(self, transport, profile, extra_caps=None):
         self.transport = transport
@@ -159,6 +162,8 @@ class Runner:
         for i, r in enumerate(self.rpcs, 1):
             if r is None:
                 st = 'W'
+            elif r is UNREF:
+                st = 'U'            # nothing references this request any more: its own outcome is not observable
             elif r.event.is_set():
                 if r.error is not None:
                     st = 'E' + str(L.err_kind(r.error))
@@ -254,13 +259,24 @@ class Runner:
             from ncclient.operations.rpc import GenericRPC
             from ncclient.operations.errors import TimeoutExpiredError
             box = {}
+            unref = len(cmd) > 1 and cmd[1] == 'unref'
             try:
-                r = GenericRPC(s, self.dh, async_mode=False, timeout=0.05, raise_mode=0)
-                self.rpcs.append(r)
+                if unref:
+                    # the way users issue it: Manager.execute builds the RPC object and drops it when the call raises
+                    mgr = manager.Manager(s, self.dh, timeout=0.05)
+                    mgr.raise_mode = 0
+                    self.rpcs.append(UNREF)
+                    r = None
+                else:
+                    r = GenericRPC(s, self.dh, async_mode=False, timeout=0.05, raise_mode=0)
+                    self.rpcs.append(r)
 
                 def call():
                     try:
-                        r.request(new_ele('sq%d' % n))
+                        if unref:
+                            mgr.dispatch(new_ele('sq%d' % n))
+                        else:
+                            r.request(new_ele('sq%d' % n))
                         box['out'] = 'returned'
                     except TimeoutExpiredError:
                         box['out'] = 'timeout'
@@ -269,6 +285,10 @@ class Runner:
                 th = threading.Thread(target=call, daemon=True)
                 th.start()
                 th.join(5)
+                if unref:
+                    del mgr, th
+                    import gc
+                    gc.collect()
                 self.req_status.append('sent' if len(self.sent) > before else 'refused')
                 self.sync_outcomes[n] = box.get('out', 'hung')
             except Exception as e:
